@@ -241,6 +241,8 @@ theorem invL_tick {sv : Bool} {cfg : Option Nat} {s : LState} (h : InvL cfg s) :
     · exact h
     · rename_i old hc
       split
+      · exact invL_die (s := { s with pending := false }) ⟨h.wf, h.cache⟩
+      split
       · exact invL_die h
       · rename_i new hp
         split
@@ -265,6 +267,7 @@ theorem stepL_state (sv : Bool) (cfg : Option Nat) (s : LState) (op : LOp) :
       | .publish r => { s with rels := publishRel r s.rels }
       | .commit r => { s with rels := commitRel r s.rels }
       | .tick => tick sv cfg s
+      | .fault _ => { s with pending := true }
       | .select false => (select cfg s).2
       | .select true =>
         match (select cfg s).1 with
@@ -274,6 +277,7 @@ theorem stepL_state (sv : Bool) (cfg : Option Nat) (s : LState) (op : LOp) :
   | publish r => rfl
   | commit r => rfl
   | tick => rfl
+  | fault e => rfl
   | select u =>
     cases u with
     | false =>
@@ -298,6 +302,7 @@ theorem invL_step {sv : Bool} {cfg : Option Nat} {s : LState} (op : LOp) (h : In
   | commit r =>
     exact ⟨commitRel_wf r h.wf, fun i hi => cacheOK_grows (grows_commit h.wf r) (h.cache i hi)⟩
   | tick => exact invL_tick h
+  | fault e => exact ⟨h.wf, h.cache⟩
   | select u =>
     cases u with
     | false => exact invL_select h
